@@ -47,6 +47,7 @@ def run(ctx):
         ctx.guard(last_index_tests, ctx, cfg, fs)
         ctx.guard(hide, ctx, cfg, fs)
         ctx.guard(comp_rebuild, ctx, cfg, fs)
+        ctx.guard(pos_only_source, ctx, cfg, fs)
         ctx.guard(hints, ctx, cfg, fs)
         ctx.guard(wrappers, ctx, cfg, fs)
         before = len(ctx.obs)
@@ -202,6 +203,48 @@ def no_late_none(ctx, cfg, fs):
     second_is_last = any('next' in d for d in desc[1]) if len(desc) > 1 else False
     ctx.ob('N.no-late-none', 'check_complete:no-none-after-last-item', cont is not None and not late and second_is_last,
            'once the item being completed is in hand, check_complete always answers Some(..): %s' % (late or 'no later None return'), where=b.where(), cfg=cfg)
+
+def pos_only_source(ctx, cfg, fs, rule='P.precedence'):
+    """whether the word being completed can only be a positional (it stands right of `--`) is read off the item BEFORE it: a
+    PosWord there means the separator has been passed.  The word itself says nothing - a trailing `--` is a PosWord too, and a
+    literal `--` typed after the separator is just text - so neither its kind nor its spelling may decide."""
+    b = ctx.look(fs.one(r'^complete_gen::<impl args::inner::State>::check_complete$'))
+    nx = [c for c in b.calls() if c.is_(r'Iterator>?::next$')]
+    nx = sorted(nx, key=lambda c: sum(1 for o in nx if b.dominates(o.bb, c.bb)))
+    cc = [c for c in b.calls() if c.is_(r'Complete::complete$')]
+    if len(nx) < 2 or len(cc) != 1:
+        raise Broken('check_complete: expected two next() calls on the reversed items and one Complete::complete call')
+    cur, prev = nx[0], nx[1]
+    why = []
+    truth = []
+    for r in provenance(b, cc[0].args[2], cc[0].bb, 'term', through=None):
+        if r.kind == 'const' and isinstance(r.what, bool) and r.site:
+            truth.append((r.site[0], r.what))
+        else:
+            truth.append(((r.site or (cc[0].bb,))[0], 'computed:%s' % (r.kind if r.kind != 'call' else r.call.name.split('::')[-1])))
+    for (db, v) in truth:
+        if v not in (True, False):
+            why.append('the value is %s at %s' % (v, b.where(db)))
+            continue
+        if v is True:
+            good = False
+            for (a, s_) in b.transitive_control_deps(db):
+                sw = Switch(b, a)
+                if sw.kind == 'enum' and sw.enum == 'arg::Arg' and s_ == sw.target('PosWord'):
+                    rs = provenance(b, sw.place, sw.discr_site[0], sw.discr_site[1], through=None)
+                    if rs and all(r.kind == 'call' and r.call.bb == prev.bb for r in rs):
+                        good = True
+            if not good:
+                why.append('`true` at %s is not under "the preceding item is a PosWord"' % b.where(db))
+        for (a, s_) in b.transitive_control_deps(db):
+            sw = Switch(b, a)
+            rs = sw.roots if sw.kind != 'enum' else provenance(b, sw.place, sw.discr_site[0], sw.discr_site[1], through=None)
+            if sw.kind == 'bool' and b.dominates(cur.bb, a) and not (rs and all(r.kind == 'call' and r.call.bb == prev.bb for r in rs)):
+                why.append('a boolean test at %s takes part in the decision' % b.where(a))
+            if sw.kind == 'enum' and sw.enum == 'arg::Arg' and rs and all(r.kind == 'call' and r.call.bb == cur.bb for r in rs):
+                why.append('the kind of the word being completed takes part in the decision (%s)' % b.where(a))
+    ctx.ob(rule, 'check_complete:positional-only-from-preceding-item', bool(truth) and not why,
+           'the positional-only flag handed to Complete::complete is true exactly under "the preceding item is a PosWord" (%d value site(s)): %s' % (len(truth), '; '.join(sorted(set(why))) or 'ok'), where=cc[0].where(), cfg=cfg)
 
 def comp_rebuild(ctx, cfg, fs):
     """complete(..) / complete_shell(..) take the hints the inner parser produced out of the state, replace the METAVARIABLE
